@@ -101,7 +101,7 @@ Proof.
   f_equal. apply forallb_ext_Forall. exact IH.
 Qed.
 
-Lemma benign_sort isl : forall t rel, benignb isl rel (sort_tree t) = benignb isl rel t.
+Lemma benign_sort isl isf : forall t rel, benignb isl isf rel (sort_tree t) = benignb isl isf rel t.
 Proof.
   induction t as [c m mt|tg mt|m mt ch IH] using tree_ind'; intro rel; try reflexivity.
   rewrite sort_tree_dir. simpl.
@@ -109,19 +109,20 @@ Proof.
   apply forallb_ext_Forall. eapply Forall_impl; [|exact IH]. intros nc H. apply H.
 Qed.
 
-Lemma prefixes_clear_ext isl isl' : (forall p, isl p = isl' p) ->
-  forall rest acc, prefixes_clear isl acc rest = prefixes_clear isl' acc rest.
+Lemma prefixes_clear_ext isl isl' isf isf' : (forall p, isl p = isl' p) -> (forall p, isf p = isf' p) ->
+  forall rest acc, prefixes_clear isl isf acc rest = prefixes_clear isl' isf' acc rest.
 Proof.
-  intro E. induction rest as [|x rest IH]; intro acc; simpl; [reflexivity|].
-  destruct rest; [reflexivity|]. now rewrite E, IH.
+  intros E F. induction rest as [|x rest IH]; intro acc; simpl; [reflexivity|].
+  destruct rest; [reflexivity|]. now rewrite E, F, IH.
 Qed.
 
-Lemma benign_ext isl isl' : (forall p, isl p = isl' p) ->
-  forall t rel, benignb isl rel t = benignb isl' rel t.
+Lemma benign_ext isl isl' isf isf' : (forall p, isl p = isl' p) -> (forall p, isf p = isf' p) ->
+  forall t rel, benignb isl isf rel t = benignb isl' isf' rel t.
 Proof.
-  intro E. induction t as [c m mt|tg mt|m mt ch IH] using tree_ind'; intro rel; simpl; try reflexivity.
+  intros E F. induction t as [c m mt|tg mt|m mt ch IH] using tree_ind'; intro rel; simpl.
+  - apply F.
   - rewrite E. destruct (lexnorm (parent rel ++ split_slash tg)); [|reflexivity].
-    now rewrite (prefixes_clear_ext isl isl' E).
+    now rewrite (prefixes_clear_ext isl isl' isf isf' E F).
   - apply forallb_ext_Forall. eapply Forall_impl; [|exact IH]. intros nc H. apply H.
 Qed.
 
@@ -138,10 +139,20 @@ Proof.
   apply flat_map_perm_Forall. eapply Forall_impl; [|exact IH]. intros nc H. apply H.
 Qed.
 
+Lemma file_paths_sort : forall t rel, Permutation (file_paths rel (sort_tree t)) (file_paths rel t).
+Proof.
+  induction t as [c m mt|tg mt|m mt ch IH] using tree_ind'; intro rel; try reflexivity.
+  rewrite sort_tree_dir. simpl.
+  rewrite (Permutation_flat_map _ (sort_children_perm (map sortg ch))).
+  rewrite flat_map_concat_map, map_map, <- flat_map_concat_map. simpl.
+  apply flat_map_perm_Forall. eapply Forall_impl; [|exact IH]. intros nc H. apply H.
+Qed.
+
 Lemma benign_tree_sort T : benign_tree (sort_tree T) = benign_tree T.
 Proof.
-  unfold benign_tree. rewrite benign_sort. apply benign_ext. intro p. unfold links_of.
-  apply existsb_perm, link_paths_sort.
+  unfold benign_tree. rewrite benign_sort. apply benign_ext; intro p.
+  - unfold links_of. apply existsb_perm, link_paths_sort.
+  - unfold files_of. apply existsb_perm, file_paths_sort.
 Qed.
 
 Lemma tree_get_sort : forall p t,
